@@ -269,6 +269,10 @@ func selectDeflate(extensions []websocketExtension, mode CompressionMode) (*comp
 
 func acceptDeflate(ext websocketExtension, mode CompressionMode) (*compressionOptions, bool) {
 	copts := mode.opts()
+	if hasDuplicateParams(ext.params) {
+		// RFC 7692 7.1: an offer with multiple parameters of the same name must be declined.
+		return nil, false
+	}
 	for _, p := range ext.params {
 		switch p {
 		case "client_no_context_takeover":
@@ -282,13 +286,39 @@ func acceptDeflate(ext websocketExtension, mode CompressionMode) (*compressionOp
 			continue
 		}
 
-		if strings.HasPrefix(p, "client_max_window_bits=") {
+		if strings.HasPrefix(p, "client_max_window_bits=") && validWindowBits(strings.TrimPrefix(p, "client_max_window_bits=")) {
 			// We can't adjust the deflate window, but decoding with a larger window is acceptable.
 			continue
 		}
 		return nil, false
 	}
 	return copts, true
+}
+
+// hasDuplicateParams reports whether two extension parameters share a name.
+func hasDuplicateParams(params []string) bool {
+	seen := make(map[string]struct{}, len(params))
+	for _, p := range params {
+		name := p
+		if i := strings.IndexByte(p, '='); i >= 0 {
+			name = p[:i]
+		}
+		name = strings.TrimSpace(name)
+		if _, ok := seen[name]; ok {
+			return true
+		}
+		seen[name] = struct{}{}
+	}
+	return false
+}
+
+// validWindowBits reports whether v is a max_window_bits value allowed by RFC 7692 7.1.2: 8 to 15.
+func validWindowBits(v string) bool {
+	switch strings.Trim(v, "\"") {
+	case "8", "9", "10", "11", "12", "13", "14", "15":
+		return true
+	}
+	return false
 }
 
 func headerContainsTokenIgnoreCase(h http.Header, key, token string) bool {
